@@ -2,7 +2,7 @@
 From stdpp Require Import gmap.
 From RecordUpdate Require Import RecordSet.
 From Coq Require Import ZArith NArith List Bool Strings.Byte.
-Require Import Regen.Base.Bytes Regen.Base.Calendar Regen.Dec.Dec Regen.Ledger.Types Regen.Ledger.Msgs.
+Require Import Regen.Base.Bytes Regen.Base.BigIntScan Regen.Base.Calendar Regen.Dec.Dec Regen.Ledger.Types Regen.Ledger.Msgs.
 Import ListNotations RecordSetNotations.
 Local Open Scope Z_scope.
 Local Open Scope lres_scope.
@@ -124,19 +124,9 @@ Definition new_coins1 (d : bytes) (amount : Z) : lres (list coin) :=
   else if negb (valid_denom d) then LErr LPanic
   else if amount =? 0 then LOk [] else LOk [{| c_denom := d; c_amount := amount |}].
 
-(* sdk.NewIntFromString: optional sign, decimal digits, at most 256 bits *)
-Definition parse_sdk_int (s : bytes) : option Z :=
-  let '(neg, body) := match s with
-                      | c :: r => if Byte.eqb c "-"%byte then (true, r)
-                                  else if Byte.eqb c "+"%byte then (false, r) else (false, s)
-                      | [] => (false, s) end in
-  match body with
-  | [] => None
-  | _ => if forallb is_digit body then
-           let v := dec_digits_val body in
-           if Z.log2 v <? 256 then Some (if neg then - v else v) else None
-         else None
-  end.
+(* sdk.NewIntFromString: math/big base-0 syntax ("010" is octal 8, "0x10" is 16, "1_000" is 1000), at most
+   256 bits; transcribed in Base/BigIntScan.v and compared with the implementation by the dec family *)
+Definition parse_sdk_int (s : bytes) : option Z := sdk_int_from_string s.
 
 (* ------------------------------------------------------------------ *)
 (* stored amounts                                                      *)
